@@ -186,19 +186,22 @@ def nontrivial(payload, md):
 LEVEL_TEXT = ('Coq theorems over an executable model of TimeoutManager (every history of register/cancel/'
               'advance/ExecuteTimeouts operations with re-entrant callback scripts, every Event allocator that '
               'returns a non-NULL address not currently allocated, every tie order of the priority queue): no '
-              'early firing, nothing overdue after ExecuteTimeouts, single-shot at most once, repeating until '
-              'false, a cancelled timer never fires and no other timer is dropped or lost; the loop terminates. '
-              'The model is tied to the C++ by a differential correspondence check on the real class with a '
-              'virtual clock and an interposed Event allocator.  Part (b), pollers: c16_registered_only and '
-              'c16_close_at_most_once are proved for every scripted scenario on both back-end models; '
-              '"close only after all data" and back-end agreement are NOT proved in general (only a bounded '
-              'exhaustive agreement theorem, *_bounded_partial) and rest on the differential runs over real '
-              'pipes/socketpairs; one known finding (C16-epoll-hup-chain) remains.')
+              'early firing, nothing overdue after ExecuteTimeouts, a due never-cancelled timer fires in that very '
+              'call, single-shot at most once, repeating until false, a cancelled timer never fires and no other '
+              'timer is dropped or lost; the loop terminates.  Pollers (models of EPoller and SelectPoller driven by '
+              'a small kernel readiness model, every scripted scenario): callbacks only while registered, a remote '
+              'close reported at most once, only after all queued data, and at least once for a hung-up connected '
+              'descriptor that stays registered; no deleted descriptor object is ever used (under the delete_on_close '
+              'contract).  Back-end agreement is proved ONLY on two bounded single-descriptor domains '
+              '(*_bounded_partial); the general simulation is not proved and rests on the differential runs.  Both '
+              'models are tied to the C++ by a differential correspondence check (real classes, virtual clock, '
+              'interposed Event allocator, real pipes/socketpairs on both back-ends).')
 LEVEL_NOTE = ('Trusted: Coq kernel, extraction (ExtrOcamlBasic), OCaml/C++ glue, generator coverage of the '
               'correspondence (model = code is validated by differential testing, not proved), libstdc++ '
               'priority_queue returning a minimum, callers passing only live ids to CancelTimeout; for the '
-              'pollers the kernel readiness model (validated only by the runs on this kernel) and the harness '
-              'fixing the epoll ready-list order by fd.')
+              'pollers the kernel readiness model (validated only by the runs on this kernel), the harness '
+              'fixing the epoll ready-list order by fd through epoll_wait/epoll_ctl interposers, and the '
+              'premise of c16_close_reported being stated on the poller table (shown reachable by an Example).')
 TECHNIQUE = 'Coq proof on hand-written executable model + extracted-model/implementation differential correspondence'
 DESIGN_REF = 'DESIGN.md §4 C16'
 
